@@ -49,11 +49,23 @@ fn guarded<R>(what: &str, fails: &mut Vec<String>, f: impl FnOnce() -> R) -> Opt
 
 /// all range paths of one readable vector for one range; `who` names the vector (rw / clone)
 pub fn range_paths<T: Val + vecdb::VecValue + PartialOrd, RV: ReadableVec<usize, T> + Sized>(v: &RV, who: &str, a: usize, b: usize, want: &[u64], fails: &mut Vec<String>) -> Option<Vec<u64>> {
+    range_paths_with::<T, RV>(v, who, a, b, Some(want), usize::MAX, fails)
+}
+
+/// `want = None`: the vector is a read-only clone of a writer with unwritten changes — what it shows is the stored
+/// prefix, not the reference; all its read paths must still agree with each other and return at most `cap` elements
+/// (`cap` = the part of `[a, b)` below the writer's current length: a clone never shows more than the writer has)
+pub fn range_paths_with<T: Val + vecdb::VecValue + PartialOrd, RV: ReadableVec<usize, T> + Sized>(v: &RV, who: &str, a: usize, b: usize, want: Option<&[u64]>, cap: usize, fails: &mut Vec<String>) -> Option<Vec<u64>> {
     let conv = |x: Vec<T>| x.into_iter().map(|y| y.to_u64()).collect::<Vec<u64>>();
     let primary = guarded(&format!("{who}.collect_range_at({a},{b})"), fails, || conv(v.collect_range_at(a, b)))?;
-    if primary != want {
-        let at = primary.iter().zip(want.iter()).position(|(x, y)| x != y).unwrap_or(primary.len().min(want.len()));
-        fails.push(format!("C08: {who}.collect_range_at({a},{b}) returns {} elements, the reference {}; first difference at position {at}: {:?} vs {:?}", primary.len(), want.len(), primary.get(at), want.get(at)));
+    if let Some(want) = want {
+        if primary != want {
+            let at = primary.iter().zip(want.iter()).position(|(x, y)| x != y).unwrap_or(primary.len().min(want.len()));
+            fails.push(format!("C08: {who}.collect_range_at({a},{b}) returns {} elements, the reference {}; first difference at position {at}: {:?} vs {:?}", primary.len(), want.len(), primary.get(at), want.get(at)));
+        }
+    }
+    if primary.len() > cap {
+        fails.push(format!("C08: {who}.collect_range_at({a},{b}) returns {} elements, the writer's length leaves room for {cap}", primary.len()));
     }
     let mut check = |name: &str, got: Option<Vec<u64>>, fails: &mut Vec<String>| {
         if let Some(g) = got { if g != primary { fails.push(format!("C08: {who}.{name}({a},{b}) disagrees with collect_range_at: {} vs {} elements", g.len(), primary.len())); } }
@@ -155,6 +167,10 @@ where
             for v in &p { h.val(*v); }
         }
         h.byte(0xFF);
+        if !clone_ok {
+            // unwritten changes: the clone shows the stored prefix; its paths must agree and stay below the writer's length
+            range_paths_with::<T, RO>(ro, "clone", a, b, None, b.min(len).saturating_sub(a), fails);
+        }
         if clone_ok {
             range_paths::<T, RO>(ro, "clone", a, b, &want, fails);
             // stored-only scans (both back-ends) see the same stored elements
